@@ -631,6 +631,12 @@ func (m *OrderedMap) Set(comparator ValueComparator, hip HashInputProvider, key 
 		return nil, err
 	}
 
+	// If the value is overwritten with itself (same array or map), the returned storable
+	// is the value that was just stored.  Nothing was detached, so it must stay as is.
+	if isStorableOfValue(storable, value) {
+		return storable, nil
+	}
+
 	// If overwritten storable is an inlined slab, uninline the slab and store it in storage.
 	// This is to prevent potential data loss because the overwritten inlined slab was not in
 	// storage and any future changes to it would have been lost.
